@@ -1,5 +1,6 @@
 import FlVerif.Lemmas.FllRepresentable
 import FlVerif.Lemmas.CodeFllExportNamed
+import FlVerif.Lemmas.CodeFllExportFormat
 
 /-! # C14 — FuzzyLite Language export / import round-trips engines
 
@@ -263,6 +264,13 @@ theorem code_ruleText (c : Cfg) (r : Rule) (hr : Py.Fll.ruleNamed r) :
     ∃ σ, Gen.Code.Rule_text.run c r {} = .ok σ ∧
       σ.ret = some (Py.joinSp ((ruleToks (keepHeight c) c r).map (Tok.render c.d))) :=
   Py.Fll.code_ruleText c r hr
+
+/-- `FllExporter.format(key, value)` for every value (`Py.Fll.Val`: string, `None`, bool, float, nested tuples, any
+    other object by its `str`): the recursion over tuples, with empty pieces dropped – `Py.Fll.format` is what the
+    other exporter functions below call -/
+theorem code_fllFormat (d : ℕ) (key : String) (v : Py.Fll.Val) :
+    ∃ σ, Gen.Code.FllExporter_format.run d key v {} = .ok σ ∧ σ.ret = some (Py.Fll.format d key v) :=
+  Py.Fll.code_fllFormat d key v
 
 /-- `FllExporter.term` -/
 theorem code_fllExportTerm (c : Cfg) (indent sep : String) (t : Term) (ht : Py.Fll.termNamed t) :
